@@ -255,6 +255,21 @@ pub(crate) fn check_repository<S: Open>(
         }
     }
 
+    // The name of a snapshot file must be the hash of its contents. No other read verifies this,
+    // so a snapshot file replaced by another valid snapshot file would go unnoticed.
+    for (id, _) in raw_be.list_with_size(FileType::Snapshot)? {
+        let file_type = FileType::Snapshot;
+        match raw_be.read_full(file_type, &id) {
+            Ok(data) if hash(&data) == id => {}
+            Ok(_) => collector.add_error(CheckError::FileHashMismatch { id, file_type }),
+            Err(err) => collector.add_error(CheckError::ErrorReadingFile {
+                id,
+                file_type,
+                source: err,
+            }),
+        }
+    }
+
     let (index_collector, missing_packs) = check_packs(repo, be, hot_be.as_ref(), &collector)?;
 
     if let Some(cache) = &cache {
@@ -861,6 +876,8 @@ pub enum CheckError {
     },
     /// Cached file Type: {file_type:?}, Id: {id} is not identical to backend!
     CacheMismatch { id: Id, file_type: FileType },
+    /// file Type: {file_type:?}, Id: {id}: the file name is not the hash of the file contents
+    FileHashMismatch { id: Id, file_type: FileType },
     /// pack {id}: No time is set! Run prune to correct this!
     PackTimeNotSet { id: PackId },
     /// pack {id}: blob {blob_id} blob type does not match: type: {blob_type:?}, expected: {expected:?}
